@@ -88,6 +88,9 @@ pub struct ChildSetup {
     /// exit code, or 1000+signal to die by that signal
     pub exit: i32,
     pub git_version: String,
+    /// after its output the command closes stdout and stderr and keeps running this long
+    #[serde(default)]
+    pub linger_ms: u32,
 }
 
 #[derive(Clone, Debug, Default, Serialize, Deserialize, PartialEq)]
@@ -354,6 +357,7 @@ pub fn run(env: &Env, spec: &RunSpec, dir: &Path, keep: bool) -> std::io::Result
         fs::write(d("child.stderr"), &ch.stderr.0)?;
         fs::write(d("child.order"), if ch.stderr_first { "stderr_first" } else { "stdout_first" })?;
         fs::write(d("child.exit"), ch.exit.to_string())?;
+        fs::write(d("child.linger"), ch.linger_ms.to_string())?;
         fs::write(d("git_version"), format!("{}\n", ch.git_version))?;
     }
 
